@@ -269,6 +269,7 @@ func rulesC08(c *Ctx) {
 		g := wr.Graph()
 		av := g.callVertices(appendM)
 		dv := g.callVertices(deliver)
+		c.Must(len(av) >= 1 && len(dv) >= 1, "Write:append-and-deliver", wr, nil, "Write appends the message to the event store and delivers it")
 		c.Need(len(av) == 1 && len(dv) == 1, "Write: one Append and one deliverLocked")
 		c.Check(wr.heldLocal(g.Node(av[0]))[lkStream], "Write:append-under-stream-lock", wr, g.Node(av[0]), "eventStore.Append runs with the stream lock held (held: %s); otherwise a resume can replay a message that is then delivered again live with the next id", setString(wr.heldLocal(g.Node(av[0]))))
 		c.Check(wr.heldLocal(g.Node(dv[0]))[lkStream], "Write:deliver-under-stream-lock", wr, g.Node(dv[0]), "deliverLocked runs with the stream lock held")
@@ -518,7 +519,7 @@ func rulesC08(c *Ctx) {
 			}
 		}
 		for _, r := range []string{"init", "deliver", "prime", "resume"} {
-			c.Pin("lastIdx role "+r, roles[r], 1)
+			c.MustPin("lastIdx role "+r, roles[r], 1, "one of the four places that keep stream.lastIdx in step with the store (initial value, live delivery, priming event, resumption) no longer writes it")
 		}
 	})
 
